@@ -450,7 +450,14 @@ func (w *worker[T, JobType]) goListenToContext() {
 	go func(c context.Context) {
 		<-c.Done()
 
-		w.Stop()
+		// Restart replaces the context: the listener of a previous run must not stop the new one
+		w.mx.RLock()
+		current := w.ctx == c
+		w.mx.RUnlock()
+
+		if current {
+			w.Stop()
+		}
 	}(w.ctx)
 }
 
